@@ -331,7 +331,7 @@ pub fn main(args: &[String]) {
         let neut = p(&["L", "R", "EN", "(", ")", "ON", "NSM", "WS"]);
         let iso = p(&["L", "R", "LRI", "RLI", "FSI", "PDI", "RLE", "PDF", "("]);
         let brk5 = p(&["L", "R", "(", ")", "["]);
-        let mut fam_exh = |o: &mut Out, alpha: &Vec<usize>, len: usize, tag: &str, dirs: usize| {
+        let fam_exh = |o: &mut Out, alpha: &Vec<usize>, len: usize, tag: &str, dirs: usize| {
             let n = alpha.len();
             let total = n.pow(len as u32);
             for code in 0..total {
@@ -660,9 +660,26 @@ pub fn main(args: &[String]) {
             suffix = suf2;
         }
         let init = Item::Ch(0x2066 + o.rng.below(2) as u32);
-        let c1 = gen_content(&mut o);
-        let c2 = gen_content(&mut o);
-        let d = dir_of(o.rng.below(3));
+        let mut c1 = gen_content(&mut o);
+        let mut c2 = gen_content(&mut o);
+        let mut d = dir_of(o.rng.below(3));
+        // one pair in eight sits just below the depth limit: 59..61 nested (RLE LRE) pairs in a forced-LTR
+        // paragraph (so the isolate itself is still valid), embeddings that overflow inside the isolate,
+        // and embedding controls after the PDI (X6a must restore the state of the initiator exactly)
+        if o.rng.chance(1, 8) {
+            let k = 59 + o.rng.below(3);
+            let mut deep = Vec::new();
+            for _ in 0..k { deep.push(Item::Ch(0x202B)); deep.push(Item::Ch(0x202A)); }
+            let simple = ["L", "R", "EN", "ON", "WS"];
+            for j in 0..o.rng.below(3) { let sname = *o.rng.pick(&simple); deep.push(Item::Ch(rep(sym(sname), j))); }
+            prefix = deep;
+            let after = ["RLE", "LRE", "PDF", "PDF", "L", "R", "AL", "EN", "ON", "RLO"];
+            suffix = (0..1 + o.rng.below(5)).map(|j| { let sname = *o.rng.pick(&after); Item::Ch(rep(sym(sname), j)) }).collect();
+            let unclosed = [0x202Au32, 0x202B, 0x202D, 0x202E];
+            if o.rng.chance(1, 2) { c1.insert(0, Item::Ch(*o.rng.pick(&unclosed))); c1.push(Item::Ch(rep(sym("L"), 0))); }
+            if o.rng.chance(1, 2) { c2.insert(0, Item::Ch(*o.rng.pick(&unclosed))); c2.push(Item::Ch(rep(sym("R"), 0))); }
+            d = '0';
+        }
         let enc = if o.rng.chance(1, 5) { 16 } else { 8 };
         let build = |c: &Vec<Item>| { let mut t = prefix.clone(); t.push(init); t.extend(c.iter().cloned()); t.push(Item::Ch(0x2069)); t.extend(suffix.iter().cloned()); t };
         let pu: usize = prefix.iter().map(|i| units(enc, i)).sum::<usize>() + units(enc, &init);
